@@ -209,7 +209,12 @@ LegDecoded(atoms, b) ==
      /\ S(b.exts) = MirrorSet(toks)
 
 \* round trip: [op = "rt", a, clean, enc = [ok, pan], wire = atoms of the legacy text (<<>> for JSON),
-\*              dec = result of Unmarshal(wire), dec2 = result of UnmarshalLegacy(wire) (legacy) / = dec (JSON)]
+\*              dec = result of Unmarshal(wire), dec2 = result of UnmarshalLegacy(wire) (legacy) / = dec (JSON),
+\*              mode, same]
+\* The formula is the same whatever happened before or at the same time: mode = "seq" (one call after the other),
+\* "hist" (the set was encoded before, the objects decoded then were overwritten, other sets were encoded in between;
+\* same = the text came out identical, which only the precise design demands), "conc" (other goroutines encode and
+\* decode their own sets at the same time).
 DecodedBack(a, atoms, d) ==
   /\ d.ok /\ ~d.pan
   /\ IF Fmt(a) = "json" THEN EqJson(a, d.b)
@@ -273,7 +278,7 @@ DesignDecode(c) ==
   ELSE IF c.jk = "null" THEN D15(FALSE, FALSE, ZeroA)
   ELSE DecLegacyDesign(c.atoms)
 C15_Strict(e) ==
-  IF e.op = "rt" THEN e.dec.ok = (Req(e.a) /\ (Fmt(e.a) = "json" \/ e.clean)) /\ Xok(e, e.dec.ok)
+  IF e.op = "rt" THEN e.dec.ok = (Req(e.a) /\ (Fmt(e.a) = "json" \/ e.clean)) /\ Xok(e, e.dec.ok) /\ e.same
   ELSE IF e.op = "declegacy" THEN LET v == LegView(e.atoms) IN ~e.res.pan /\ e.res.ok = (v.hasreq /\ v.nat = 1) /\ Xok(e, e.res.ok)
   ELSE IF e.op = "decode" THEN ~e.res.pan /\ e.res.ok = DesignDecode(e.cmd).ok /\ Xok(e, e.res.ok)
   ELSE TRUE
@@ -384,7 +389,7 @@ Clean15(s) == s.ifVer >= 7 \/ s.user # "61406f"    \* the legacy format is only 
 EvRt(s) == LET a == Attr15(s)
                d == DesignRt(a)
            IN [op |-> "rt", a |-> a, clean |-> Clean15(s), enc |-> d.enc, wire |-> d.wire, dec |-> d.dec, dec2 |-> d.dec2,
-               xok |-> IF d.dec.ok THEN "t" ELSE "f"]
+               xok |-> IF d.dec.ok THEN "t" ELSE "f", mode |-> "seq", same |-> TRUE]
 
 Shapes == {"noeq", "empty", "val", "valeq"}
 LToks  == [key : LKeys, shape : Shapes]
